@@ -37,6 +37,7 @@ impl Property for C12 {
     }
     fn run(&self, s: &Streams) -> CaseOut {
         let mut out = CaseOut::new();
+        out.owns_panics = true;
         let cfg = break_cfg();
         let built = gen_case(&mut Ch::new(&s[0]), &cfg);
         let lines = program_lines(&built.prog);
